@@ -127,6 +127,14 @@ CHECKS.update({
             "1-3 real CCoinsViewCache / CoinsViewOverlay layers over a real CCoinsViewDB (LevelDB in memory, or on disk through the recorded file layer); dense seeded sequences (3-2500 ops) of AddCoin (incl. legal/illegal overwrite), SpendCoin, all five lookups, Uncache, Sync, Flush, push/pop of layers, Reset, SetBestBlock over 1-12 outpoints with tiny DB batch sizes; after EVERY operation every layer's PeekCoin for every outpoint equals a per-layer map model, reads equal the model, after Flush/Sync parent == child and a DB cursor scan equals the model DB, Uncache/Reset contracts, own recomputation of cachedCoinsUsage / DynamicMemoryUsage / dirty count, the FRESH/DIRTY entry-state contract against the model's parent view, SanityCheck. Faults: dirty restart (caches dropped, DB reopened) and a crash at seeded or (thorough) EVERY I/O index inside every CCoinsViewDB::BatchWrite under kill and power-loss semantics: the image must be the old state, the new state, or a marked transition (head blocks set, best block null, every entry old or new).",
             "Only the top layer is mutated while children exist (API contract); operation sequences are densely sampled, not enumerated; the overlay runs without worker threads here (threads: C14).",
             "deterministic simulation with fault injection: real cache stack + LevelDB over simfs, seeded operation histories, enumerated crash points inside batch writes; oracle = per-layer map model", "DESIGN.md §5 C15"),
+    "C20": ("nodesim/utxo-snapshot", "exploration",
+            "A source node rebuilds the regtest chain whose height-110 (or 200) UTXO hash is the compiled-in assumeutxo commitment and writes real snapshots; a target node (blocks 0..base+extra connected, headers known or not, a competing fork known or active, invalidated blocks, on-disk or in-memory) is offered the snapshot under 27 mutation kinds (every single field through an own encoder, equivalent re-encodings, bit flips/byte sets/truncations/insertions/deletions by field class or swept over every byte of one coin record or of the metadata, appended bytes) through plain, short-read, EOF-at-offset and EIO-at-offset streams. An own decoder reads what reaches the loader: activation must fail when the bytes are malformed, the base is not an assumeutxo block, its header unknown or invalid, its work not above the active tip's, or the decoded coin set differs from the committed one; after every rejection no snapshot chainstate directory is left and chainstates, tip, mempool, block-index flags, best header and the existing UTXO set (coin by coin against the model) are unchanged; the unmutated file on a clean target must activate onto exactly the committed set; background validation is marked VALIDATED only if the fully validated set at the base hashes to the commitment (corrupted background coins must not validate).",
+            "One genuine defect was found and repaired (fix commit in /repo: equal-work base on a competing chain was accepted); listed as fixed in known_findings.txt. Files with duplicate identical records and a matching count activate (loaded set is still the committed one: legal). Restart with a snapshot chainstate is outside the statement.",
+            "deterministic simulation with fault injection: real ActivateSnapshot/MaybeValidateSnapshot on seeded node states with mutated snapshot streams and injected read faults; oracle = own snapshot decoder + reference chain model", "DESIGN.md §5 C20"),
+    "C65": ("threadsim/waitnext", "exploration",
+            "Real threads under the seeded scheduler: 1-3 waiter threads call node::WaitAndCreateNewBlock (timeouts 0..max, fee thresholds 0/1 sat/k/MAX_MONEY, stale or fresh templates) against a real node with KernelNotifications while the driver thread mines blocks on the tip (timestamps now / now-20 min +-3 s / now+30 s), makes natural reorgs and stale siblings, adds and replaces transactions so that mempool fees land exactly at / one below / one above previous fees + threshold, and calls InterruptWait; every clock is the simulator's (sleeps of 0.999999/1/1.000001 s, clock jumps of 1 ms-21 min, spurious condition-variable wake-ups as fault knobs); policies cooperative / preemptive / PCT re-drawn at the start of the concurrent phase. Post-hoc over the recorded event order: a returned template's parent was the tip at some instant inside the call; a same-tip template needs the fee rise or a tip older than 20 min; null needs the timeout passed or an interrupt; no null when the tip changed or the fee condition held before the deadline; every call ends by its deadline and within one tick of a tip change, interrupt or fee rise.",
+            "Promptness is decided to one 1 s tick (a lost notify is masked by the poll); the 20-minute rule only on regtest; shutdown interrupt and the BlockTemplateImpl wrapper are bypassed.",
+            "deterministic simulation: real threads scheduled by seed at intercepted pthread/futex/clock calls with simulated time and clock faults; oracle = post-hoc check of the recorded call/notification history", "DESIGN.md §5 C65"),
     "C23": ("nodesim/block-template", "exploration",
             "MempoolSim histories plus own ops (nLockTime at height/MTP -1/0, sigop-heavy outputs, prioritisation, reorgs to MTP+1-time branches lowering the MTP) with the clock stepping backwards before template creation; per-template option space: max weight aimed at the weight of the first k baseline transactions +-1..3, reserved weight, block_min_fee_rate, coinbase sigop reservation aimed at 80000 - sigops(first k) +-1..5, use_mempool, 7 coinbase scripts. Every template: on tip, one coinbase, no duplicates, parents first, inputs in model UTXO or earlier in the template, fees == inputs - outputs, own weight sum + reserved <= max, own sigop count + reservation <= 80000, every tx final for tip+1 at MTP by the model, coinbase == subsidy + fees, TestBlockValidity on the raw and the solved block, model verdict VALID, and ProcessNewBlock makes it the tip of a cold twin node (or of the node itself).",
             "Landing exactly on a limit is within the limit; block_min_fee_rate and per-tx sigop entries are not in the statement and not decided.",
